@@ -21,6 +21,8 @@ Inductive db_error :=
 | DNotNull (t c : string)
 | DForeignKey (t : string)           (* immediate foreign-key violation / RESTRICT / NO ACTION *)
 | DUnique (index : string)
+| DCheck (t name : string)
+| DDatatype (t : string)              (* a non-integer value for an INTEGER PRIMARY KEY (rowid alias) *)
 | DAddColumn (t c : string).         (* ADD COLUMN refusals that depend on the table holding rows *)
 
 Definition value_eqb (a b : value) : bool :=
@@ -48,6 +50,12 @@ Definition canon_num (s : string) : string :=
   | [i; f] => if (negb (String.eqb i "") && all_chars (fun a => Ascii.eqb a "0"%char) f)%bool then i else s
   | _ => s
   end.
+Fixpoint N_of_digits_acc (s : string) (acc : N) : N :=
+  match s with
+  | EmptyString => acc
+  | String a r => N_of_digits_acc r (acc * 10 + (N_of_ascii a - 48))
+  end.
+Definition N_of_digits (s : string) : N := N_of_digits_acc s 0.
 Definition is_numeric (s : string) : bool :=
   let body := match s with String "-"%char r => r | _ => s end in
   (negb (String.eqb body "") && all_chars (fun a => (is_digit a || Ascii.eqb a "."%char)%bool) body
@@ -97,6 +105,62 @@ Definition fk_rows_ok (d : rows_db) (t : ctable) (rs : list row) : bool :=
                       (negb (key_nonnull k) || existsb (fun p => key_eqb (key_of (sf_refcols f) p) k) parent_rows)%bool) rs)
     (ct_fks t).
 
+(* ---------- CHECK clauses: the two shapes whose truth the model can decide ----------
+   "col" IN (lit, lit, …)   (the enum clauses vespertide writes)   and   ident > int   (the generator's explicit checks);
+   anything else is taken to hold.  NULL satisfies a CHECK. *)
+Definition strip_prefix (p s : string) : option string :=
+  if starts_with p s then Some (str_drop (String.length p) s) else None.
+Definition check_holds (chk : string * string) (r : row) : bool :=
+  let e := snd chk in
+  if first_char_is """"%char e then
+    match String.index 1 """" e with
+    | Some q =>
+        let col := String.substring 1 (q - 1) e in
+        match strip_prefix " IN (" (str_drop (S q) e) with
+        | Some rest =>
+            if ends_with ")" rest then
+              let lits := split_on ","%char (str_take (String.length rest - 1) rest) in
+              match rget col r with
+              | VText v => existsb (fun l => value_eqb (eval_lit l) (VText v)) lits
+              | _ => true
+              end
+            else true
+        | None => true
+        end
+    | None => true
+    end
+  else
+    match split_on " "%char e with
+    | [col; ">"; n] =>
+        if (all_chars is_ident_char col && all_chars is_digit n && negb (String.eqb n ""))%bool then
+          match rget col r with
+          | VText v => if all_chars is_digit v then N.ltb (N_of_digits n) (N_of_digits v) else true
+          | _ => true
+          end
+        else true
+    | _ => true
+    end.
+Definition first_failed_check (t : ctable) (rs : list row) : option string :=
+  match find (fun k => existsb (fun r => negb (check_holds k r)) rs) (ct_checks t) with
+  | Some k => Some (fst k)
+  | None => None
+  end.
+
+(* a single-column primary key declared exactly INTEGER is the rowid: it only takes integers *)
+Definition rowid_alias (t : ctable) : option string :=
+  match filter (fun c => negb (Nat.eqb (cc_pk c) 0)) (ct_cols t) with
+  | [c] => if ieq (cc_type c) "integer" then Some (cc_name c) else None
+  | _ => None
+  end.
+Definition is_integer_text (s : string) : bool :=
+  let body := match s with String "-"%char r => r | _ => s end in
+  (negb (String.eqb body "") && all_chars is_digit body)%bool.
+Definition rowid_ok (t : ctable) (rs : list row) : bool :=
+  match rowid_alias t with
+  | None => true
+  | Some c => forallb (fun r => match rget c r with VText v => is_integer_text v | _ => true end) rs
+  end.
+
 Definition first_null (t : ctable) (rs : list row) : option string :=
   match find (fun c => (cc_notnull c && existsb (fun r => value_eqb (rget (cc_name c) r) VNull) rs)%bool) (ct_cols t) with
   | Some c => Some (cc_name c)
@@ -104,46 +168,84 @@ Definition first_null (t : ctable) (rs : list row) : option string :=
   end.
 
 (* ---------- DROP TABLE under foreign_keys=ON: the implicit DELETE FROM parent ---------- *)
-Inductive child_outcome := ChildOk (rs : list row) | ChildFail (e : db_error).
-Definition on_delete_child (parent : string) (parent_rows : list row) (child : ctable) (rs : list row) : child_outcome :=
+Definition action_of (x : option ref_action) : ref_action := match x with Some a => a | None => NoAction end.
+(* Deleting the rows [gone] of table [parent] (DROP TABLE deletes all of them): RESTRICT is refused at once; CASCADE deletes
+   the referencing rows — and that deletion fires the actions of the foreign keys that reference the child table, to any
+   depth ([fuel]; running out of it is an explicit error) —; SET NULL / SET DEFAULT rewrite the child rows; NO ACTION (the
+   default) is judged at the end of the statement on the rows that are left ([pending] checks). *)
+Definition fk_hits (parent : string) (parent_rows : list row) (f : sfk) (r : row) : bool :=
+  let k := key_of (sf_cols f) r in
+  (ieq (sf_table f) parent && key_nonnull k && existsb (fun p => key_eqb (key_of (sf_refcols f) p) k) parent_rows)%bool.
+
+Definition pending_check := (string * sfk * string * list row)%type.   (* child table, its foreign key, parent, deleted parent rows *)
+
+(* the actions of one child table; returns the child's new rows and the rows CASCADE removed from it *)
+Definition on_delete_child (parent : string) (gone : list row) (child : ctable) (rs : list row)
+  : result (list row * list row) db_error :=
+  let hit := fk_hits parent gone in
+  if existsb (fun f => match action_of (sf_on_delete f) with Restrict => existsb (hit f) rs | _ => false end) (ct_fks child)
+  then Err (DForeignKey (ct_name child)) else
   fold_left (fun acc f =>
     match acc with
-    | ChildFail e => ChildFail e
-    | ChildOk cur =>
-        if negb (ieq (sf_table f) parent) then ChildOk cur else
-        let hit (r : row) := let k := key_of (sf_cols f) r in
-                             (key_nonnull k && existsb (fun p => key_eqb (key_of (sf_refcols f) p) k) parent_rows)%bool in
-        if negb (existsb hit cur) then ChildOk cur else
+    | Err e => Err e
+    | Ok (cur, removed) =>
+        if negb (existsb (hit f) cur) then Ok (cur, removed) else
         match action_of (sf_on_delete f) with
-        | Cascade => ChildOk (filter (fun r => negb (hit r)) cur)
+        | Cascade => Ok (filter (fun r => negb (hit f r)) cur, removed ++ filter (hit f) cur)
         | SetNull =>
             if existsb (fun c => (imem (cc_name c) (sf_cols f) && cc_notnull c)%bool) (ct_cols child)
-            then ChildFail (DNotNull (ct_name child) (hd "" (sf_cols f)))
-            else ChildOk (map (fun r => if hit r then fold_left (fun r' c => rset c VNull r') (sf_cols f) r else r) cur)
+            then Err (DNotNull (ct_name child) (hd "" (sf_cols f)))
+            else Ok (map (fun r => if hit f r then fold_left (fun r' c => rset c VNull r') (sf_cols f) r else r) cur, removed)
         | SetDefault =>
-            (* the new key must exist in the (now empty) parent unless it is NULL *)
+            (* the new key must exist in the parent (whose matching rows are gone) unless it is NULL *)
             let set_default (r : row) :=
               fold_left (fun r' c => match find (fun x => ieq (cc_name x) c) (ct_cols child) with
                                      | Some x => rset c (col_default_value x) r'
                                      | None => r' end) (sf_cols f) r in
-            let cur' := map (fun r => if hit r then set_default r else r) cur in
-            if existsb (fun r => (hit r && key_nonnull (key_of (sf_cols f) (set_default r)))%bool) cur
-            then ChildFail (DForeignKey (ct_name child)) else ChildOk cur'
-        | Restrict | NoAction => ChildFail (DForeignKey (ct_name child))
+            if existsb (fun c => (imem (cc_name c) (sf_cols f) && cc_notnull c && value_eqb (col_default_value c) VNull)%bool)
+                       (ct_cols child)
+            then Err (DNotNull (ct_name child) (hd "" (sf_cols f)))
+            else if existsb (fun r => (hit f r && key_nonnull (key_of (sf_cols f) (set_default r)))%bool) cur
+            then Err (DForeignKey (ct_name child))
+            else Ok (map (fun r => if hit f r then set_default r else r) cur, removed)
+        | Restrict | NoAction => Ok (cur, removed)
         end
-    end) (ct_fks child) (ChildOk rs)
-where "'action_of' x" := (match x with Some a => a | None => NoAction end).
+    end) (ct_fks child) (Ok (rs, [])).
 
-Fixpoint implicit_delete (parent : string) (parent_rows : list row) (children : list ctable) (d : rows_db)
+Fixpoint delete_rows (fuel : nat) (tables : list ctable) (parent : string) (gone : list row)
+  (st : rows_db * list pending_check) : result (rows_db * list pending_check) db_error :=
+  match fuel with
+  | O => Err (DForeignKey parent)
+  | S fuel' =>
+      fold_left (fun acc ch =>
+        match acc with
+        | Err e => Err e
+        | Ok (d, pend) =>
+            if ieq (ct_name ch) parent then Ok (d, pend) else
+            match on_delete_child parent gone ch (rows_of (ct_name ch) d) with
+            | Err e => Err e
+            | Ok (rs, removed) =>
+                let pend' := pend ++ flat_map (fun f => match action_of (sf_on_delete f) with
+                                                        | NoAction => if ieq (sf_table f) parent then [(ct_name ch, f, parent, gone)] else []
+                                                        | _ => [] end) (ct_fks ch) in
+                let d' := set_rows (ct_name ch) rs d in
+                match removed with
+                | [] => Ok (d', pend')
+                | _ => delete_rows fuel' tables (ct_name ch) removed (d', pend')
+                end
+            end
+        end) tables (Ok st)
+  end.
+
+Definition implicit_delete (parent : string) (parent_rows : list row) (tables : list ctable) (d : rows_db)
   : result rows_db db_error :=
-  match children with
-  | [] => Ok d
-  | ch :: r =>
-      if ieq (ct_name ch) parent then implicit_delete parent parent_rows r d
-      else match on_delete_child parent parent_rows ch (rows_of (ct_name ch) d) with
-           | ChildFail e => Err e
-           | ChildOk rs => implicit_delete parent parent_rows r (set_rows (ct_name ch) rs d)
-           end
+  match delete_rows (S (List.length tables)) tables parent parent_rows (d, []) with
+  | Err e => Err e
+  | Ok (d', pend) =>
+      match find (fun p => let '(ch, f, par, gone) := p in existsb (fk_hits par gone f) (rows_of ch d')) pend with
+      | Some (ch, _, _, _) => Err (DForeignKey ch)
+      | None => Ok d'
+      end
   end.
 
 Fixpoint has_dup_key (ks : list (list value)) : bool :=
@@ -151,6 +253,9 @@ Fixpoint has_dup_key (ks : list (list value)) : bool :=
   | [] => false
   | k :: r => ((key_nonnull k && existsb (key_eqb k) r) || has_dup_key r)%bool
   end.
+
+Definition pk_columns (t : ctable) : list string :=
+  map cc_name (filter (fun c => negb (Nat.eqb (cc_pk c) 0)) (ct_cols t)).
 
 (* ---------- one statement ---------- *)
 Definition exec_db (fk_on : bool) (d : db) (st : stmt) : result db db_error :=
@@ -203,9 +308,13 @@ Definition exec_db (fk_on : bool) (d : db) (st : stmt) : result db db_error :=
           | None => Err (DCat (ENoSuchTable dst))
           | Some dt =>
               let produced := map (inserted_row dt cols exprs) (rows_of src rd) in
-              match first_null dt produced with
-              | Some cn => Err (DNotNull dst cn)
-              | None =>
+              if negb (rowid_ok dt produced) then Err (DDatatype dst) else
+              if (nonempty (pk_columns dt) && has_dup_key (map (key_of (pk_columns dt)) (rows_of dst rd ++ produced)))%bool
+              then Err (DUnique dst) else
+              match first_null dt produced, first_failed_check dt produced with
+              | Some cn, _ => Err (DNotNull dst cn)
+              | None, Some k => Err (DCheck dst k)
+              | None, None =>
                   if (fk_on && negb (fk_rows_ok rd dt produced))%bool then Err (DForeignKey dst)
                   else Ok (mkDb c' (set_rows dst (rows_of dst rd ++ produced) rd))
               end
